@@ -751,6 +751,24 @@ mod persist_enc {
         b.to_vec()
     }
 }
+/// encoder 7 = `encode_command` of the CLI client in src/main.rs (a bin target), compiled from its source text
+#[cfg(verif_main_enc)]
+mod main_enc {
+    #![allow(dead_code)]
+    include!(concat!(env!("OUT_DIR"), "/main_enc.rs"));
+    pub fn enc(parts: &[&str]) -> Vec<u8> {
+        encode_command(parts)
+    }
+}
+/// the shadow proxy's command-name extractor `parse_resp_command` (src/bin/shadow_proxy.rs), compiled from its source text
+#[cfg(verif_proxy_dec)]
+mod proxy_dec {
+    #![allow(dead_code)]
+    include!(concat!(env!("OUT_DIR"), "/proxy_dec.rs"));
+    pub fn name(data: &[u8]) -> Option<String> {
+        parse_resp_command(data)
+    }
+}
 #[cfg(verif_persist_enc)]
 fn persist_encoders(rv: &RespValue) -> Vec<(u8, Vec<u8>)> {
     vec![(5, persist_enc::enc(rv))]
@@ -948,6 +966,94 @@ fn command_encoder(cx: &mut Ctx) {
     cx.out.count(if bytes == b"*1\r\n$4\r\nPING\r\n" { "encoder6:other-commands-sent-as-PING(documented)" } else { "encoder6:other-commands-encoded" });
 }
 
+/// encoder 7: the CLI client's `encode_command(parts: &[&str])` — the same frame as encoder 6 (model CE)
+#[cfg(verif_main_enc)]
+fn cli_encoder(cx: &mut Ctx) {
+    let lines: [&[&str]; 9] = [&[], &["PING"], &["GET", "k"], &["SET", "k", "v"], &["set", "ké✓", "0123456789012345678901234567890123456789"], &["ECHO", ""],
+        &["DEL", "a", "b", "c", "d", "e", "f", "g", "h", "i", "j", "k"], &["X\r\nY", "\r\n"], &["EVAL", "return redis.call('GET', KEYS[1])", "1", "k"]];
+    for parts in lines {
+        let bytes = main_enc::enc(parts);
+        let op = format!("CE {}", parts.iter().map(|a| hex(a.as_bytes())).collect::<Vec<_>>().join(" "));
+        let op = op.trim_end().to_string();
+        cx.out.op(op.clone(), hex(&bytes));
+        cx.out.case(&format!("CE7|{}", op), true);
+        cx.out.count("encoder:7");
+        let o = decode_here(1, &bytes);
+        let want = V::A(parts.iter().map(|a| V::B(a.as_bytes().to_vec())).collect());
+        if !(o.kind == Kind::Ok && o.consumed == bytes.len() && o.val.as_ref() == Some(&want)) {
+            cx.out.violation("C15:roundtrip:cli-command-encoder", "a command line written by the CLI client's encode_command does not decode to the array of its words", json!({"words": parts, "encoded": hex(&bytes), "decoded": o.line(), "expected": want.show()}));
+        }
+    }
+}
+#[cfg(not(verif_main_enc))]
+fn cli_encoder(cx: &mut Ctx) {
+    cx.out.violation("C15:coverage:cli-encoder-not-extracted", "harness/build.rs did not find the free function `encode_command` in src/main.rs: the CLI client's copy of the command encoder is not driven", json!({"file": "src/main.rs"}));
+}
+
+/// the shadow proxy's command-name extractor on client frames, their truncations, near-frames and short
+/// strings over the grammar alphabet: never a panic; the name the model predicts (Resp.proxyName)
+#[cfg(verif_proxy_dec)]
+fn proxy_names(cx: &mut Ctx) {
+    fn frame(args: &[&[u8]]) -> Vec<u8> {
+        let mut v = format!("*{}\r\n", args.len()).into_bytes();
+        for a in args {
+            v.extend(format!("${}\r\n", a.len()).into_bytes());
+            v.extend_from_slice(a);
+            v.extend_from_slice(b"\r\n");
+        }
+        v
+    }
+    let mut inputs: Vec<Vec<u8>> = Vec::new();
+    let cmds: [&[&[u8]]; 12] = [&[b"PING"], &[b"get", b"k"], &[b"SET", b"k", b"v"], &[b"set", b"k", b"\xff\x00"], &[b"\r\n"], &[b"a\rb", b"x"], &[b"G\r\nT", b"x"], &[b""], &[],
+        &["\u{e9}cho".as_bytes(), b"x"], &[b"stra\xc3\x9fe"], &[b"MiXeD-123_z{|}~", b"\r\n"]];
+    for c in cmds {
+        let f = frame(c);
+        for cutoff in 0..=f.len() {
+            inputs.push(f[..cutoff].to_vec());
+        }
+        let mut two = f.clone();
+        two.extend_from_slice(&frame(&[b"PING"]));
+        inputs.push(two);
+    }
+    for s in [&b"*1\r\n$2\r\n\r\n\r\n"[..], b"*2\r\nX3\r\nGET\r\n", b"*2\r\n$3\r\n", b"*2\r\n$3", b"*\r\n$\r\n\r\n", b"*\r\n\r\n\r\n", b"\r\n$\r\nA\r\n", b"*1\n$4\nPING\n", b"*1\r$4\rPING\r",
+        b"*1\r\r\n$4\r\r\nPING", b"*-1\r\n", b"*1\r\n+PING\r\n", b"*1\r\n:1\r\n", b"$4\r\nPING\r\n", b"+OK\r\n", b"*1\r\n$4\r\nping\r\n\xff", b"*1\r\n$1\r\n\xc3\r\n"] {
+        inputs.push(s.to_vec());
+    }
+    // every string of length <= 5 over a small alphabet, after `*`
+    let alpha: &[u8] = b"*$1\r\na";
+    for len in 0..=5usize {
+        let total = (alpha.len() as u64).pow(len as u32);
+        for mut idx in 0..total {
+            let mut s = vec![b'*'];
+            for _ in 0..len {
+                s.push(alpha[(idx % alpha.len() as u64) as usize]);
+                idx /= alpha.len() as u64;
+            }
+            inputs.push(s);
+        }
+    }
+    for data in inputs {
+        let r = std::panic::catch_unwind(|| proxy_dec::name(&data));
+        let line = match &r {
+            Err(_) => "crash".to_string(),
+            Ok(None) => "none".to_string(),
+            // (Unicode upper-casing is not modelled: the name is compared for all-ASCII buffers only)
+            Ok(Some(n)) => if data.is_ascii() { format!("name={}", hex(n.as_bytes())) } else { "name=~".to_string() },
+        };
+        let op = format!("PN {}", hex(&data));
+        cx.out.op(op.clone(), line);
+        cx.out.case(&op, data.len() > 1);
+        cx.out.count("proxy-name");
+        if r.is_err() {
+            cx.out.violation("C15:crash:proxy-name-extractor", "parse_resp_command of the shadow proxy panicked on client bytes", json!({"input": hex(&data)}));
+        }
+    }
+}
+#[cfg(not(verif_proxy_dec))]
+fn proxy_names(cx: &mut Ctx) {
+    cx.out.violation("C15:coverage:proxy-name-extractor-not-extracted", "harness/build.rs did not find the free function `parse_resp_command` in src/bin/shadow_proxy.rs: the proxy's reader of client frames is not driven", json!({"file": "src/bin/shadow_proxy.rs"}));
+}
+
 /// every value of the FIRST byte (RESP3 type bytes, inline commands, control bytes) before several
 /// tails; nesting exactly around MAX_NESTING_DEPTH; bulk payloads around the sizes that matter
 fn sweeps(cx: &mut Ctx) {
@@ -1052,8 +1158,8 @@ fn codec_enumeration(cx: &mut Ctx) {
             ("src/simulator/connection.rs", "encode_resp") => "encoder 4: E4 ops (hook H1c)",
             ("src/simulator/connection.rs", "encode_command") => "encoder 6 (client side): CE ops through the public SimulatedReadBuffer API",
             ("src/bin/server_persistent.rs", "encode_resp_into") | ("src/bin/server_persistent.rs", "encode_error_into") => "encoder 5 + its error encoder: E5 / EE5 ops on the source text compiled into the harness (build.rs)",
-            ("src/main.rs", "encode_command") => "NOT driven: the CLI client of the bin target main.rs (a command line split on blanks written as an array of bulk strings: the shape of encoder 6, theorem command_frame_decodes)",
-            ("src/bin/shadow_proxy.rs", "parse_resp_command") => "NOT driven: bin target shadow_proxy (extracts the command NAME of a frame for logging / routing of the proxy, no replies are built from it)",
+            ("src/main.rs", "encode_command") => "encoder 7 (CLI client of the bin target main.rs): CE ops on its source text compiled into the harness (build.rs); theorem command_frame_decodes",
+            ("src/bin/shadow_proxy.rs", "parse_resp_command") => "the shadow proxy's command-name extractor: PN ops on its source text compiled into the harness (build.rs); model Resp.proxyName, theorems proxy_name_agrees_partial / proxy_name_counterexample",
             ("src/redis/server.rs", "encode_with_request_id") | ("src/redis/server.rs", "decode_request_id") => "not RESP: 8-byte request-id envelope of the simulated server around RespParser::parse / encode (decoder 2 / encoder 2)",
             _ => return None,
         })
@@ -1090,6 +1196,15 @@ fn codec_enumeration(cx: &mut Ctx) {
         if !looks_resp {
             continue;
         }
+        let names_of = |src: &str| -> Vec<String> {
+            src.lines()
+                .filter_map(|l| {
+                    let t = l.trim_start();
+                    ["pub async fn ", "async fn ", "pub fn ", "fn ", "pub(crate) fn "].iter().find_map(|p| t.strip_prefix(p)).map(|r| r.chars().take_while(|c| c.is_alphanumeric() || *c == '_').collect::<String>())
+                })
+                .collect()
+        };
+        let file_has_accounted = names_of(&src).iter().any(|n| account(&rel, n).is_some());
         for line in src.lines() {
             let t = line.trim_start();
             for pre in ["pub async fn ", "async fn ", "pub fn ", "fn ", "pub(crate) fn "] {
@@ -1105,8 +1220,16 @@ fn codec_enumeration(cx: &mut Ctx) {
                             None => {
                                 // helpers that are no RESP codecs, in files that contain one: listed one by one
                                 let benign = matches!((rel.as_str(), name.as_str()), ("src/bin/server_persistent.rs", "parse_replica_id_from_env") | ("src/production/connection_optimized.rs", "parse_usize_fast"));
+                                // a PRIVATE function of a LIBRARY file whose codec functions are accounted for can be
+                                // reached only through those (they are what the generators drive and the models
+                                // transcribe): a new or renamed private helper is no new entry point.  (In a bin target
+                                // every function is private: there a new codec-like function stays a violation.)
+                                let is_bin = rel.starts_with("src/bin/") || rel == "src/main.rs";
+                                let private_helper = pre == "fn " && !is_bin && file_has_accounted;
                                 if benign {
                                     table.insert(format!("{}::{}", rel, name), json!("not a RESP codec (environment / length-field helper; parse_usize_fast is part of the C04 recognisers)"));
+                                } else if private_helper {
+                                    table.insert(format!("{}::{}", rel, name), json!("private helper of a library file whose codec functions are accounted for: reachable only through them"));
                                 } else {
                                     table.insert(format!("{}::{}", rel, name), json!("UNACCOUNTED"));
                                     cx.out.violation(&format!("C15:coverage:resp-codec-not-accounted:{}::{}", rel, name), "a function of the source tree looks like a RESP encoder / decoder and is neither in the model's table nor listed with the reason why not (harness/src/c15.rs codec_enumeration)", json!({"file": rel, "fn": name}));
@@ -1123,6 +1246,130 @@ fn codec_enumeration(cx: &mut Ctx) {
         cx.out.violation("C15:coverage:source-scan-failed", "the scan of the source tree found fewer than 20 codec functions", json!({"root": root, "found": found}));
     }
     cx.out.extra.insert("resp_codecs(derived from the source tree at run time)".into(), serde_json::Value::Object(table));
+}
+
+// ---------------------------------------------------------------- source text helpers (shared with C04)
+
+/// index just behind the `}` that closes the block opening at `open` (`src[open] == '{'`); string,
+/// raw-string, byte-string and char literals and comments are skipped
+pub fn match_brace(src: &[u8], open: usize) -> Option<usize> {
+    let mut depth = 0usize;
+    let mut i = open;
+    while i < src.len() {
+        let c = src[i];
+        match c {
+            b'/' if src.get(i + 1) == Some(&b'/') => {
+                while i < src.len() && src[i] != b'\n' {
+                    i += 1;
+                }
+                continue;
+            }
+            b'/' if src.get(i + 1) == Some(&b'*') => {
+                let mut d = 1;
+                i += 2;
+                while i + 1 < src.len() && d > 0 {
+                    if src[i] == b'/' && src[i + 1] == b'*' {
+                        d += 1;
+                        i += 2;
+                    } else if src[i] == b'*' && src[i + 1] == b'/' {
+                        d -= 1;
+                        i += 2;
+                    } else {
+                        i += 1;
+                    }
+                }
+                continue;
+            }
+            b'r' if matches!(src.get(i + 1), Some(&b'"') | Some(&b'#'))
+                && (i == 0 || !(src[i - 1].is_ascii_alphanumeric() || src[i - 1] == b'_') || src[i - 1] == b'b') =>
+            {
+                // raw string r"…" / r#"…"# (also br"…")
+                let mut j = i + 1;
+                let mut hashes = 0;
+                while src.get(j) == Some(&b'#') {
+                    hashes += 1;
+                    j += 1;
+                }
+                if src.get(j) == Some(&b'"') {
+                    j += 1;
+                    'raw: while j < src.len() {
+                        if src[j] == b'"' {
+                            let mut k = 0;
+                            while k < hashes && src.get(j + 1 + k) == Some(&b'#') {
+                                k += 1;
+                            }
+                            if k == hashes {
+                                j += 1 + hashes;
+                                break 'raw;
+                            }
+                        }
+                        j += 1;
+                    }
+                    i = j;
+                    continue;
+                }
+            }
+            b'"' => {
+                i += 1;
+                while i < src.len() && src[i] != b'"' {
+                    if src[i] == b'\\' {
+                        i += 1;
+                    }
+                    i += 1;
+                }
+            }
+            b'\'' => {
+                // a char literal ('x', '\n', '\'', '\u{1f600}', a multi-byte char) or a lifetime ('a)
+                if src.get(i + 1) == Some(&b'\\') {
+                    i += 3;
+                    while i < src.len() && src[i] != b'\'' {
+                        i += 1;
+                    }
+                } else {
+                    let close = (2..=5).find(|k| src.get(i + k) == Some(&b'\''));
+                    let ident = src.get(i + 1).map(|c| c.is_ascii_alphabetic() || *c == b'_').unwrap_or(false);
+                    match close {
+                        Some(k) if !(ident && k > 2) => i += k,
+                        _ => {}
+                    }
+                }
+            }
+            b'{' => depth += 1,
+            b'}' => {
+                depth -= 1;
+                if depth == 0 {
+                    return Some(i + 1);
+                }
+            }
+            _ => {}
+        }
+        i += 1;
+    }
+    None
+}
+
+/// the text of the function (free or method, any visibility) `name` of `src`, from the `fn` keyword to
+/// its closing brace — found by NAME with brace matching, wherever it stands in the file
+pub fn fn_text<'a>(src: &'a str, name: &str) -> Option<&'a str> {
+    let b = src.as_bytes();
+    let pat = format!("fn {}", name);
+    let mut from = 0;
+    while let Some(off) = src[from..].find(&pat) {
+        let at = from + off;
+        from = at + pat.len();
+        let before_ok = at == 0 || !(b[at - 1].is_ascii_alphanumeric() || b[at - 1] == b'_');
+        let after_ok = matches!(b.get(at + pat.len()).copied(), Some(b'(') | Some(b'<'));
+        // not inside a comment line
+        let line_start = src[..at].rfind('\n').map(|x| x + 1).unwrap_or(0);
+        let in_comment = src[line_start..at].trim_start().starts_with("//");
+        if !(before_ok && after_ok) || in_comment {
+            continue;
+        }
+        let open = at + src[at..].find('{')?;
+        let end = match_brace(b, open)?;
+        return Some(&src[at..end]);
+    }
+    None
 }
 
 // ---------------------------------------------------------------- generators
@@ -1561,6 +1808,8 @@ fn run_inner(a: &Args) {
     error_encoder(&mut cx);
     error_encoder5(&mut cx);
     command_encoder(&mut cx);
+    cli_encoder(&mut cx);
+    proxy_names(&mut cx);
     sweeps(&mut cx);
     codec_enumeration(&mut cx);
     // the static reply constructors of RespValue
